@@ -297,16 +297,11 @@ func (p *pinner) doPinRecursive(ctx context.Context, c cid.Cid, fetch bool, name
 	if err != nil {
 		return err
 	}
-	// Do not return immediately! Just remove the recursive pins for the current CID.
-	// This allows the process to continue and the pin to be re-added with a new name.
-	//
-	// TODO: remove this to support multiple pins per CID
-	if found {
-		_, err = p.removePinsForCid(ctx, c, ipfspinner.Recursive)
-		if err != nil {
-			return err
-		}
-	}
+	// Do not return immediately when found! The process continues so that the
+	// pin is re-added with the new name. The existing pins for this CID are
+	// only removed after the graph has been fetched and the new pin has been
+	// stored (see below), so that neither a failed fetch nor a crash can leave
+	// an already pinned CID unpinned.
 
 	dirtyBefore := p.dirty
 
@@ -331,8 +326,10 @@ func (p *pinner) doPinRecursive(ctx context.Context, c cid.Cid, fetch bool, name
 		return err
 	}
 
-	// Only look again if something has changed.
-	if p.dirty != dirtyBefore {
+	// Only look again if something has changed: if the CID was not pinned
+	// before the lock was released and has been pinned in the meantime, there
+	// is nothing left to do.
+	if !found && p.dirty != dirtyBefore {
 		found, err := p.cidRIndex.HasAny(ctx, cidKey)
 		if err != nil {
 			return err
@@ -342,19 +339,30 @@ func (p *pinner) doPinRecursive(ctx context.Context, c cid.Cid, fetch bool, name
 		}
 	}
 
+	// Existing recursive and direct pins for this CID are replaced by the new
+	// pin.
+	//
 	// TODO: remove this to support multiple pins per CID
-	found, err = p.cidDIndex.HasAny(ctx, cidKey)
+	oldRecursive, err := p.cidRIndex.Search(ctx, cidKey)
 	if err != nil {
 		return err
 	}
-	if found {
-		_, err = p.removePinsForCid(ctx, c, ipfspinner.Direct)
-		if err != nil {
-			return err
-		}
+	oldDirect, err := p.cidDIndex.Search(ctx, cidKey)
+	if err != nil {
+		return err
 	}
 
+	// Store the new pin before removing the ones it replaces, so that the CID
+	// is pinned at every point in time.
 	_, err = p.addPin(ctx, c, ipfspinner.Recursive, name)
+	if err != nil {
+		return err
+	}
+	_, err = p.removePinsWithIDs(ctx, c, ipfspinner.Recursive, oldRecursive)
+	if err != nil {
+		return err
+	}
+	_, err = p.removePinsWithIDs(ctx, c, ipfspinner.Direct, oldDirect)
 	if err != nil {
 		return err
 	}
@@ -388,23 +396,22 @@ func (p *pinner) doPinDirect(ctx context.Context, c cid.Cid, name string) error 
 		return fmt.Errorf("%s already pinned recursively", c.String())
 	}
 
-	// Remove existing direct pins for this CID. This ensures that the pin will be
-	// re-saved with the new name and that there aren't clashing pins for the same
-	// CID.
+	// Existing direct pins for this CID are replaced. This ensures that the pin
+	// will be re-saved with the new name and that there aren't clashing pins
+	// for the same CID. The new pin is stored before the old ones are removed,
+	// so that a crash in between cannot leave the CID unpinned.
 	//
 	// TODO: remove this to support multiple pins per CID.
-	found, err = p.cidDIndex.HasAny(ctx, cidKey)
+	oldDirect, err := p.cidDIndex.Search(ctx, cidKey)
 	if err != nil {
 		return err
 	}
-	if found {
-		_, err = p.removePinsForCid(ctx, c, ipfspinner.Direct)
-		if err != nil {
-			return err
-		}
-	}
 
 	_, err = p.addPin(ctx, c, ipfspinner.Direct, name)
+	if err != nil {
+		return err
+	}
+	_, err = p.removePinsWithIDs(ctx, c, ipfspinner.Direct, oldDirect)
 	if err != nil {
 		return err
 	}
@@ -936,8 +943,17 @@ func (p *pinner) removePinsForCid(ctx context.Context, c cid.Cid, mode ipfspinne
 	if err != nil {
 		return false, err
 	}
+	return p.removePinsWithIDs(ctx, c, mode, ids)
+}
+
+// removePinsWithIDs removes the pins with the given ids, found in the index of
+// cid c, that have the specified mode.  Returns true if any pins, and all
+// corresponding CID index entries, were removed.  Otherwise, returns false.
+func (p *pinner) removePinsWithIDs(ctx context.Context, c cid.Cid, mode ipfspinner.Mode, ids []string) (bool, error) {
+	cidKey := c.KeyString()
 
 	var removed bool
+	var err error
 
 	// Remove the pin with the requested mode
 	for _, pid := range ids {
@@ -946,24 +962,26 @@ func (p *pinner) removePinsForCid(ctx context.Context, c cid.Cid, mode ipfspinne
 		if err != nil {
 			if errors.Is(err, ds.ErrNotFound) {
 				p.setDirty(ctx)
-				// Fix index; remove index for pin that does not exist
+				// Fix index; remove the index entry for the pin that does not
+				// exist. Only this entry is removed: the key may also index
+				// pins that do exist (e.g. the pin replacing this one).
 				switch mode {
 				case ipfspinner.Recursive:
-					_, err = p.cidRIndex.DeleteKey(ctx, cidKey)
+					err = p.cidRIndex.Delete(ctx, cidKey, pid)
 					if err != nil {
 						return false, fmt.Errorf("error deleting index: %s", err)
 					}
 				case ipfspinner.Direct:
-					_, err = p.cidDIndex.DeleteKey(ctx, cidKey)
+					err = p.cidDIndex.Delete(ctx, cidKey, pid)
 					if err != nil {
 						return false, fmt.Errorf("error deleting index: %s", err)
 					}
 				case ipfspinner.Any:
-					_, err = p.cidRIndex.DeleteKey(ctx, cidKey)
+					err = p.cidRIndex.Delete(ctx, cidKey, pid)
 					if err != nil {
 						return false, fmt.Errorf("error deleting index: %s", err)
 					}
-					_, err = p.cidDIndex.DeleteKey(ctx, cidKey)
+					err = p.cidDIndex.Delete(ctx, cidKey, pid)
 					if err != nil {
 						return false, fmt.Errorf("error deleting index: %s", err)
 					}
